@@ -335,6 +335,8 @@ func init() {
 		exploreChoiceOpts(r, "c03.two-evidences", 2, dl, 1)
 		exploreChoice(r, "c03.many-components", -1, dl)
 		exploreChoice(r, "c03.rsa-key-sizes", -1, dl)
+		encStats = c03stats // the scenario is shared with C09/C12 and counts there
+		exploreChoiceOpts(r, "c03.same-name-claim-types", 1, dl, 1)
 		for kind := 0; kind < 3; kind++ {
 			exploreChoice(r, "c03."+kindNames[kind], b, dl)
 		}
